@@ -22,31 +22,31 @@ import (
 )
 
 type ACase struct {
-	ID    int    `json:"id"`
-	Kind  string `json:"kind"` // access | init
-	Site  string `json:"site"`
-	Cont  string `json:"cont"`  // S | A
-	CKind string `json:"ckind"` // struct | resource | contract
-	Mod   string `json:"mod"`
-	MKind string `json:"mkind"` // var | let | fun
-	Via   string `json:"via"`
-	Op    string `json:"op"`
-	FKind string `json:"fkind"` // init family
-	N     int    `json:"n"`
-	Where string `json:"where"` // inherited-member family: same | sameacct | otheracct
-	First  string `json:"first"`  // initializer-shape family
+	ID     int    `json:"id"`
+	Kind   string `json:"kind"` // access | init
+	Site   string `json:"site"`
+	Cont   string `json:"cont"`  // S | A
+	CKind  string `json:"ckind"` // struct | resource | contract
+	Mod    string `json:"mod"`
+	MKind  string `json:"mkind"` // var | let | fun
+	Via    string `json:"via"`
+	Op     string `json:"op"`
+	FKind  string `json:"fkind"` // init family
+	N      int    `json:"n"`
+	Where  string `json:"where"` // inherited-member family: same | sameacct | otheracct
+	First  string `json:"first"` // initializer-shape family
 	Jump   string `json:"jump"`
 	Second string `json:"second"`
 }
 
 type AResult struct {
-	ID     int      `json:"id"`
-	Accept bool     `json:"accept"`
-	Access []string `json:"access"` // access / constant-field errors
-	Other  []string `json:"other"`  // anything else: harness error
-	Writes map[string]int `json:"writes,omitempty"` // initializer shapes: engine -> most writes of the field seen in one construction
+	ID     int               `json:"id"`
+	Accept bool              `json:"accept"`
+	Access []string          `json:"access"`           // access / constant-field errors
+	Other  []string          `json:"other"`            // anything else: harness error
+	Writes map[string]int    `json:"writes,omitempty"` // initializer shapes: engine -> most writes of the field seen in one construction
 	RunErr map[string]string `json:"runerr,omitempty"`
-	Src    string   `json:"src,omitempty"`
+	Src    string            `json:"src,omitempty"`
 }
 
 var accMods = []string{"self", "contract", "account", "all", "E", "E,F", "E|F"}
@@ -66,11 +66,11 @@ func modDecl(m string) string { return "access(" + m + ")" }
 
 // accessErrors are the checker errors that are verdicts about the property.
 var accessErrors = map[string]bool{
-	"InvalidAccessError":                true,
-	"InvalidAssignmentAccessError":      true,
-	"AssignmentToConstantMemberError":   true,
-	"AssignmentToConstantError":         true,
-	"FieldReinitializationError":        true,
+	"InvalidAccessError":                   true,
+	"InvalidAssignmentAccessError":         true,
+	"AssignmentToConstantMemberError":      true,
+	"AssignmentToConstantError":            true,
+	"FieldReinitializationError":           true,
 	"UnauthorizedReferenceAssignmentError": true,
 }
 
@@ -217,7 +217,6 @@ func initProgram(c *ACase) string {
 	}
 }
 
-
 // ---- members declared in an interface (default functions, requirements implemented by the conformer)
 
 func inhPrograms(c *ACase) (ib string, o string, oAddr byte, script string) {
@@ -345,7 +344,6 @@ func runInhCase(c *ACase, w *host.World, res *AResult, srcs *[]string) {
 	r := w.Script(script, false)
 	classifyAcc(r.Err, res)
 }
-
 
 // ---- initializer shapes: FIRST ; JUMP ; SECOND over a let field; every write logs "w"
 
